@@ -809,10 +809,8 @@ mod c05 {
                 verdict(ok, json!({"helper_call_args": args}), json!({"helper": helper, "args (target, start, end, step)": expected}), &args_echo, "generated call: documented helper, every written bound in its position, None exactly for an omitted bound")
             }
             Ok(Err(m)) => {
-                let mut r = verdict(false, json!({"front_end_error": m}), json!({"helper": helper, "args": expected}), &args_echo, "a documented slice form must compile");
-                // known finding: `::` is lexed as one path token, so `[::step]` / `[a::step]` do not parse
-                if m.starts_with("parse") && sub.contains("::") { r["class"] = json!("C05-slice-double-colon-syntax"); }
-                r
+                // (until fix 32617e3 the compact forms `[::step]` / `[a::step]` failed here: `::` is lexed as one token)
+                verdict(false, json!({"front_end_error": m}), json!({"helper": helper, "args": expected}), &args_echo, "a documented slice form must compile")
             }
             Err(m) => verdict(false, json!({"panicked": m}), json!({"helper": helper}), &args_echo, "front end must not panic"),
         }
